@@ -8,6 +8,7 @@ import (
 	"strconv"
 	"strings"
 	"sync"
+	"time"
 
 	"go.nanomsg.org/mangos/v3"
 
@@ -69,6 +70,7 @@ type answerSt struct {
 	bogus       string // raw mode: class of a reply that must vanish ("" = regular)
 	final       bool
 	afterFailed bool // Send after a failed Recv (pending-ness is implementation-defined)
+	mayDrop     bool // sent while best effort was asked for on the context
 }
 
 type rig struct {
@@ -91,8 +93,11 @@ type rig struct {
 	answers map[int]*answerSt
 	nreq    int
 	nans    int
-	checked int // replies verified on the wire
-	hdrCmp  int // header bytes compared
+	checked int    // replies verified on the wire
+	mayDrop []bool // per context: best effort asked for (a reply sent there may be discarded)
+	beSeen  int    // replies sent under best effort and verified on the wire
+	beGone  int    // replies sent under best effort to an open connection and not transmitted
+	hdrCmp  int    // header bytes compared
 }
 
 func newRig(c *mon.Case, proto string, nctx, npipes, ttl int) *rig {
@@ -108,10 +113,34 @@ func newRig(c *mon.Case, proto string, nctx, npipes, ttl int) *rig {
 // the harness sees on its vt pipes is then what comes out of the whole chain: the reply must still be
 // on the requester's connection and carry exactly the routing header the requester sent.
 func newRigVia(c *mon.Case, proto string, nctx, npipes, ttl, ndev int, trs string) *rig {
+	return newRigSpec(c, c05Spec{Proto: proto, NCtx: nctx, NPipes: npipes, TTL: ttl, NDev: ndev, Tr: trs})
+}
+
+// newRigSpec is newRigVia plus the send-side options of the spec (sendopt and wire kinds): WQ > 0 sets
+// OptionWriteQLen to WQ-1 before any connection exists, SDL arms a one-hour OptionSendDeadline, BE turns
+// OptionBestEffort on (1: on the socket before the contexts are opened, 2: on a random non-empty subset
+// of the contexts one by one, 3: on the socket after the contexts were opened).  mayDrop[i] records
+// whether the application asked for best effort in a way that may concern context i: a reply sent there
+// may be discarded (the only thing the oracle relaxes); what does go out is judged like any other reply.
+func newRigSpec(c *mon.Case, sp c05Spec) *rig {
+	proto, nctx, npipes, ttl, ndev, trs := sp.Proto, sp.NCtx, sp.NPipes, sp.TTL, sp.NDev, sp.Tr
 	r := &rig{c: c, proto: proto, kind: proto, raw: proto[0] == 'x', ndev: ndev, ttl: ttl, detIDs: map[uint32]bool{}, reqs: map[int]*reqSt{}, answers: map[int]*answerSt{}, nonce: hx.Uniq("c")}
 	r.sock = hx.MustSock(c, proto)
 	if err := r.sock.SetOption(mangos.OptionTTL, ttl); err != nil {
 		panic(fmt.Sprintf("SetOption(TTL,%d): %v", ttl, err))
+	}
+	if sp.WQ > 0 {
+		if err := r.sock.SetOption(mangos.OptionWriteQLen, sp.WQ-1); err != nil {
+			panic(fmt.Sprintf("SetOption(WriteQLen,%d): %v", sp.WQ-1, err))
+		}
+	}
+	if sp.SDL {
+		if err := r.sock.SetOption(mangos.OptionSendDeadline, time.Hour); err != nil {
+			panic(fmt.Sprintf("SetOption(SendDeadline): %v", err))
+		}
+	}
+	if sp.BE == 1 {
+		r.setBE(-1, true)
 	}
 	r.edge = r.sock
 	if ndev > 0 {
@@ -168,6 +197,32 @@ func newRigVia(c *mon.Case, proto string, nctx, npipes, ttl, ndev int, trs strin
 			}
 			r.ctxs = append(r.ctxs, cx)
 		}
+		r.mayDrop = make([]bool, len(r.ctxs))
+		switch sp.BE {
+		case 1:
+			for i := range r.mayDrop {
+				r.mayDrop[i] = true
+			}
+		case 2:
+			must := c.Rand.Intn(len(r.ctxs))
+			for i := range r.ctxs {
+				if i == must || c.Rand.Intn(2) == 0 {
+					r.setBE(i, true)
+				}
+			}
+		case 3:
+			r.setBE(0, true)
+		}
+		for i, cx := range r.ctxs {
+			// whatever the library says is in force counts as asked for, too
+			if g, ok := cx.(interface {
+				GetOption(string) (interface{}, error)
+			}); ok {
+				if v, err := g.GetOption(mangos.OptionBestEffort); err == nil && v == true {
+					r.mayDrop[i] = true
+				}
+			}
+		}
 	}
 	for i := 0; i < npipes; i++ {
 		if r.addPipe() == nil {
@@ -175,6 +230,42 @@ func newRigVia(c *mon.Case, proto string, nctx, npipes, ttl, ndev int, trs strin
 		}
 	}
 	return r
+}
+
+// setBE sets OptionBestEffort on context i (-1: on the socket, before any context is open).
+func (r *rig) setBE(i int, on bool) {
+	var o interface {
+		SetOption(string, interface{}) error
+	} = r.sock
+	if i >= 0 {
+		o = r.ctxs[i]
+	}
+	if err := o.SetOption(mangos.OptionBestEffort, on); err != nil {
+		panic(fmt.Sprintf("SetOption(BestEffort,%v) on ctx %d: %v", on, i, err))
+	}
+	if i >= 0 {
+		r.mu.Lock()
+		r.mayDrop[i] = on
+		r.mu.Unlock()
+	}
+}
+
+// reliable turns best effort off everywhere: what is sent from now on (the flush replies) must arrive.
+func (r *rig) reliable() {
+	for i := range r.ctxs {
+		r.mu.Lock()
+		on := r.mayDrop[i]
+		r.mu.Unlock()
+		if on {
+			r.setBE(i, false)
+		}
+	}
+}
+
+func (r *rig) ctxMayDrop(i int) bool {
+	r.mu.Lock()
+	defer r.mu.Unlock()
+	return i >= 0 && i < len(r.mayDrop) && r.mayDrop[i]
 }
 
 // depthLimit: requests carry 0 .. depthLimit()-1 routing words in front of the id when they leave the
@@ -409,6 +500,10 @@ func (r *rig) scan(p *pipeSt) {
 			continue
 		}
 		q.wireAns++
+		if a.mayDrop {
+			r.beSeen++
+			r.c.Count("besteffort_replies_verified_on_wire", 1)
+		}
 		if q.wireAns > 1 && !r.raw {
 			r.c.Violate(r.proto+"/request-answered-twice", "request serial %d on pipe %d was answered %d times on the wire", q.serial, p.n, q.wireAns)
 		}
@@ -447,6 +542,14 @@ func (r *rig) checkLost() {
 		}
 		a.final = true
 		if a.req == nil {
+			continue
+		}
+		if a.mayDrop && a.err == nil && !a.req.pipe.dropped {
+			// best effort: the reply may have been discarded; if it went out, scan judged it
+			if a.seen == 0 {
+				r.beGone++
+				r.c.Count("besteffort_replies_discarded", 1)
+			}
 			continue
 		}
 		if a.err == nil && !a.req.pipe.dropped && a.seen == 0 {
